@@ -5,6 +5,7 @@ package auth
 import (
 	"context"
 	"encoding/json"
+	"strconv"
 	"testing"
 
 	"github.com/alicebob/miniredis/v2"
@@ -22,6 +23,7 @@ type verifOp struct {
 	NoMd   bool     `json:"nomd"`   // call: context without incoming metadata
 	Apps   []string `json:"apps"`   // call: values of the "app" metadata key
 	Tokens []string `json:"tokens"` // call: values of the "token" metadata key
+	N      int      `json:"n"`      // flood: number of calls, for apps App+"0", App+"1", ... with token Token
 }
 
 type verifCase struct {
@@ -52,7 +54,8 @@ func TestVerifDriver(t *testing.T) {
 			return map[string]any{"error": err.Error()}
 		}
 		type row struct {
-			Code int `json:"code"` // grpc code, -1 for a non-status error
+			Code  int         `json:"code"`            // grpc code, -1 for a non-status error
+			Flood map[int]int `json:"flood,omitempty"` // flood: grpc code -> number of calls answered with it
 		}
 		rows := []row{}
 		for _, op := range c.Ops {
@@ -73,6 +76,23 @@ func TestVerifDriver(t *testing.T) {
 					}
 					up = true
 				}
+			case "flood":
+				// many Authenticate calls for distinct apps in quick succession (one summary row)
+				hist := map[int]int{}
+				for i := 0; i < op.N; i++ {
+					md := metadata.MD{appKey: []string{op.App + strconv.Itoa(i)}, tokenKey: []string{op.Token}}
+					err := a.Authenticate(metadata.NewIncomingContext(context.Background(), md))
+					code := int(codes.OK)
+					if err != nil {
+						if st, ok := status.FromError(err); ok {
+							code = int(st.Code())
+						} else {
+							code = -1
+						}
+					}
+					hist[code]++
+				}
+				rows = append(rows, row{Code: -3, Flood: hist})
 			case "call":
 				ctx := context.Background()
 				if !op.NoMd {
